@@ -31,6 +31,21 @@ def run(pid, tier, seed, replay=None):
                       {"invariant": m.group(1), "item": item}, "database entry %s violates %s" % (item, m.group(1)))
     log("[%s] Reflection.tla: %d database entries checked (%s)" % (pid, expected, counts))
 
+    # ---- a regenerated database: what comes back from the encodings rbx_reflector writes is the same database ----
+    for how in ("msgpack",):      # JSON cannot carry the non-finite default values (serde_json writes null), it is output only
+        again = os.path.join(OUT, "db_reencoded_%s.json" % how)
+        rbxv(["export-db", "--reencode", how], stdout_path=again)
+        d2 = json.load(open(again))
+        if "reencode_error" in d2:
+            rep.violation("reencode|%s|%s" % (how, re.sub(r"\d+", "N", d2["reencode_error"])[:60]), {"how": how, "error": d2["reencode_error"]},
+                          "the database re-encoded as %s (as rbx_reflector writes it) cannot be read back: %s" % (how, d2["reencode_error"]))
+        elif d2 != d:
+            diff = [c for c in d["classes"] if d["classes"][c] != d2.get("classes", {}).get(c)][:5]
+            rep.violation("reencode|%s|differs" % how, {"how": how, "classes": diff},
+                          "the database re-encoded as %s reads back differently (e.g. classes %s)" % (how, diff))
+        os.remove(again)
+    log("[%s] re-encoded database (MessagePack, as rbx_reflector writes it) reads back identical" % pid)
+
     # ---- C: the library's own lookup functions answer what Reflection.tla computes ----
     ltrace = os.path.join(OUT, "C16_lookups.ndjson")
     rbxv(["db-lookups"], stdout_path=ltrace)
